@@ -117,6 +117,19 @@ func c18HookX(o *Out, kind string, ih, pid []byte, prob float32, maxd int, modmi
 	req, resp := mk(6881, 0)
 	reqCopy, respCopy := mk(6881, 0)
 	ctx := context.Background()
+	if len(ih) == 20 && ih[19]%4 == 0 {
+		// the hook has varied a few dozen other clients' responses before: d is a function of THIS infohash and peer ID alone
+		for i := 0; i < 30; i++ {
+			wih, wpid := append([]byte{}, ih...), append([]byte{}, pid...)
+			wih[i%20] ^= byte(1 + i)
+			if len(wpid) == 20 {
+				wpid[(i*7)%20] ^= byte(3 + i)
+			}
+			wreq := &bittorrent.AnnounceRequest{InfoHash: bittorrent.InfoHashFromBytes(wih), Peer: bittorrent.Peer{ID: bittorrent.PeerIDFromBytes(wpid), Port: 1,
+				IP: bittorrent.IP{IP: net.IP{10, 0, 0, 2}, AddressFamily: bittorrent.IPv4}}}
+			_, _ = h.HandleAnnounce(ctx, wreq, &bittorrent.AnnounceResponse{Interval: time.Duration(iIn), MinInterval: time.Duration(mIn)})
+		}
+	}
 	nctx, herr := h.HandleAnnounce(ctx, req, resp)
 	iOut, mOut := int64(resp.Interval), int64(resp.MinInterval)
 	resp.Interval, resp.MinInterval = respCopy.Interval, respCopy.MinInterval
